@@ -1,1 +1,142 @@
-//! Faulty byte streams (filled in with SIM-R).
+//! Faulty byte streams: the "network and disk" of the serde fragment. Every decision comes from
+//! the plan (drawn from the PRNG by the caller); nothing here is random.
+
+use serde::{Deserialize, Serialize};
+use std::io::{self, Read, Write};
+
+#[derive(Serialize, Deserialize, Clone, Copy, Debug, Default, PartialEq, Eq)]
+pub struct IoPlan {
+    /// at most this many bytes per call (0 = unlimited): short reads / short writes
+    pub chunk: u16,
+    /// every n-th call (n >= 2: a transient condition) fails with `Interrupted` before transferring anything (0 = never)
+    pub eintr_every: u16,
+    /// the call that would transfer byte `err_at` fails with an I/O error (0xffff = never)
+    pub err_at: u16,
+    /// readers only: end of file after this many bytes (0xffff = at the real end)
+    pub eof_at: u16,
+}
+
+pub const NEVER: u16 = 0xffff;
+
+impl IoPlan {
+    pub fn clean() -> Self {
+        IoPlan { chunk: 0, eintr_every: 0, err_at: NEVER, eof_at: NEVER }
+    }
+    pub fn is_clean(&self) -> bool {
+        *self == Self::clean()
+    }
+}
+
+#[derive(Default, Debug, Clone, Copy)]
+pub struct IoStats {
+    pub calls: usize,
+    pub short: usize,
+    pub eintr: usize,
+    pub errors: usize,
+    pub eofs: usize,
+}
+
+pub const INJECTED_IO_ERROR: &str = "injected-io-error";
+
+pub struct FaultyReader<'a> {
+    data: &'a [u8],
+    pos: usize,
+    plan: IoPlan,
+    pub stats: IoStats,
+}
+
+impl<'a> FaultyReader<'a> {
+    pub fn new(data: &'a [u8], plan: IoPlan) -> Self {
+        FaultyReader { data, pos: 0, plan, stats: IoStats::default() }
+    }
+    pub fn consumed(&self) -> usize {
+        self.pos
+    }
+}
+
+impl Read for FaultyReader<'_> {
+    fn read(&mut self, buf: &mut [u8]) -> io::Result<usize> {
+        self.stats.calls += 1;
+        if buf.is_empty() {
+            return Ok(0);
+        }
+        if self.plan.eintr_every >= 2 && self.stats.calls % self.plan.eintr_every as usize == 0 {
+            self.stats.eintr += 1;
+            return Err(io::Error::new(io::ErrorKind::Interrupted, "injected-eintr"));
+        }
+        let mut end = self.data.len();
+        if self.plan.eof_at != NEVER {
+            end = end.min(self.plan.eof_at as usize);
+        }
+        // the failing byte only exists if it lies before the (possibly early) end of the stream
+        let err_at = if self.plan.err_at != NEVER && (self.plan.err_at as usize) < end { Some(self.plan.err_at as usize) } else { None };
+        if let Some(e) = err_at {
+            if self.pos >= e {
+                self.stats.errors += 1;
+                return Err(io::Error::new(io::ErrorKind::Other, INJECTED_IO_ERROR));
+            }
+        }
+        if self.pos >= end {
+            if end < self.data.len() {
+                self.stats.eofs += 1;
+            }
+            return Ok(0);
+        }
+        let mut n = buf.len().min(end - self.pos);
+        if self.plan.chunk != 0 && n > self.plan.chunk as usize {
+            n = self.plan.chunk as usize;
+            self.stats.short += 1;
+        }
+        if let Some(e) = err_at {
+            // stop right before the failing byte so that the next call hits it
+            n = n.min(e - self.pos);
+        }
+        buf[..n].copy_from_slice(&self.data[self.pos..self.pos + n]);
+        self.pos += n;
+        Ok(n)
+    }
+}
+
+pub struct FaultyWriter {
+    pub buf: Vec<u8>,
+    plan: IoPlan,
+    pub stats: IoStats,
+}
+
+impl FaultyWriter {
+    pub fn new(plan: IoPlan) -> Self {
+        FaultyWriter { buf: Vec::new(), plan, stats: IoStats::default() }
+    }
+}
+
+impl Write for FaultyWriter {
+    fn write(&mut self, data: &[u8]) -> io::Result<usize> {
+        self.stats.calls += 1;
+        if data.is_empty() {
+            return Ok(0);
+        }
+        if self.plan.eintr_every >= 2 && self.stats.calls % self.plan.eintr_every as usize == 0 {
+            self.stats.eintr += 1;
+            return Err(io::Error::new(io::ErrorKind::Interrupted, "injected-eintr"));
+        }
+        let pos = self.buf.len();
+        if self.plan.err_at != NEVER && pos >= self.plan.err_at as usize {
+            self.stats.errors += 1;
+            return Err(io::Error::new(io::ErrorKind::Other, INJECTED_IO_ERROR));
+        }
+        let mut n = data.len();
+        if self.plan.chunk != 0 && n > self.plan.chunk as usize {
+            n = self.plan.chunk as usize;
+            self.stats.short += 1;
+        }
+        if self.plan.err_at != NEVER {
+            n = n.min(self.plan.err_at as usize - pos);
+        }
+        self.buf.extend_from_slice(&data[..n]);
+        Ok(n)
+    }
+
+    fn flush(&mut self) -> io::Result<()> {
+        Ok(())
+    }
+}
